@@ -213,6 +213,40 @@ example : Own false [[("b", .val (.cell (.int 1)))], [("x", .ptr 0), ("y", .ptr 
   · refine ⟨.ptr 0, _, [0], [], rfl, rfl, ?_, ⟨rfl, rfl⟩, by simp⟩
     exact ⟨0, _, [], rfl, rfl, rfl, by simp, _, _, [], [], rfl, rfl, ⟨rfl, rfl⟩, ⟨rfl, rfl⟩, by simp⟩
 
+/-- end to end, for ALL pure trees (this also shows the hypotheses above are satisfiable for every pair
+of trees): lay `t = dict a` (distinct keys) and `u = dict b` (distinct keys, no empty branch) out in
+any heap, run the heap `tree_update` with enough fuel: it returns a new node that reads back as the
+recursive merge, and `t` and `u` read back unchanged. -/
+theorem update_on_heap (m0 : Mem) (a b : List (String × Val)) (ig : List Val)
+    (hwt : wf (.dict a) = true) (hwu : wf (.dict b) = true) (hnu : noEmpty (.dict b) = true)
+    (f : Nat) (hft : depth (.dict a) ≤ f) (hfu : depth (.dict b) ≤ f) :
+    ∃ t u m', (allocTree m0 (.dict a)).2 = .ptr t ∧
+      (allocTree (allocTree m0 (.dict a)).1 (.dict b)).2 = .ptr u ∧
+      treeUpdateH f (allocTree (allocTree m0 (.dict a)).1 (.dict b)).1 t u ig =
+        .ok (m', (allocTree (allocTree m0 (.dict a)).1 (.dict b)).1.heap.length) ∧
+      (∀ g, depth (merge ig (.dict a) (.dict b)) ≤ g →
+        readH m'.heap g (.ptr (allocTree (allocTree m0 (.dict a)).1 (.dict b)).1.heap.length) =
+          some (merge ig (.dict a) (.dict b))) ∧
+      readH m'.heap f (.ptr t) = some (.dict a) ∧ readH m'.heap f (.ptr u) = some (.dict b) := by
+  obtain ⟨fp1, h1, _, _, _⟩ := allocTree_Own (.dict a) m0
+  obtain ⟨fp2, h2, _, _, hsame2⟩ := allocTree_Own (.dict b) (allocTree m0 (.dict a)).1
+  have hlt1 := Own.lt _ _ fp1 h1
+  have h1' := Own.congr _ _ fp1 h1 fun x hx => hsame2 x (hlt1 x hx)
+  generalize (allocTree (allocTree m0 (.dict a)).1 (.dict b)).1 = m2 at *
+  cases hr1 : (allocTree m0 (.dict a)).2 with
+  | val w => rw [hr1] at h1'; exact absurd rfl ((Own_val h1').2.2 a)
+  | ptr t =>
+    cases hr2 : (allocTree (allocTree m0 (.dict a)).1 (.dict b)).2 with
+    | val w => rw [hr2] at h2; exact absurd rfl ((Own_val h2).2.2 b)
+    | ptr u =>
+      rw [hr1] at h1'
+      rw [hr2] at h2
+      obtain ⟨m', hrun, hread⟩ := update_heap_is_merge f m2 t u ig a b fp1 fp2
+        (Own.weaken _ _ _ h1') (Own.weaken _ _ _ h2) hwt hwu hnu hft hfu
+      exact ⟨t, u, m', rfl, rfl, hrun, hread,
+        update_operands_unchanged f m2 t u ig m' _ hrun f _ _ (readH_of_Own _ _ fp1 f h1' hft),
+        update_operands_unchanged f m2 t u ig m' _ hrun f _ _ (readH_of_Own _ _ fp2 f h2 hfu)⟩
+
 /-- F7: the code before the fix (`copy(tree)`, one level) violates the frame property:
 `t = {'a': {'b': 1}}; tree_update(t, {'a': {'c': 2}})` writes `c` into the node of `t['a']` -/
 private def mF7 : Mem :=
